@@ -42,6 +42,51 @@ def reference_keywords():
     return re.findall(r'kw "([^"]+)" "([^"]+)"', txt)
 
 
+def reference_operators():
+    """(spelling, Go type string) of every operator / punctuation token of the documented table (coq/Model/LexOps.v)"""
+    names = dict(re.findall(r'Definition T_(\w+) : list N := \[[^\]]*\]\. \(\* "([^"]*)" \*\)',
+                            open(os.path.join(V.COQ, "Gen", "Tokens.v")).read()))
+    out = []
+    txt = open(os.path.join(V.COQ, "Model", "LexOps.v")).read()
+    txt = txt[txt.index("Definition ref_op_table"):]
+    for line in txt.splitlines():
+        m = re.match(r'\s*\(chr "(.)",', line)
+        if not m:
+            continue
+        c = m.group(1)
+        for ty, lit in re.findall(r'L T_(\w+) "([^"]+)"', line):
+            out.append((lit, names.get(ty, ty)))
+        for ty in re.findall(r'L1 T_(\w+)', line):
+            out.append((c, names.get(ty, ty)))
+    return out
+
+
+# the documented character classes (same as Model/LexSpec.v ref_*), used to probe every byte
+def _letter(b): return 97 <= b <= 122 or 65 <= b <= 90 or b == 95
+def _decimal(b): return 48 <= b <= 57
+def _hex(b): return _decimal(b) or 97 <= b <= 102 or 65 <= b <= 70
+
+
+def class_probes():
+    """(label, source, expected first token (TYPE, literal bytes) or None when only located-ness is checked)"""
+    out = []
+    for b in range(1, 128):
+        ch = bytes([b])
+        if b in (0x0a,):
+            continue
+        out.append(("class:letter:%02x" % b, ch + b"q", ("IDENT", ch + b"q") if _letter(b) else None))
+        out.append(("class:ident-tail:%02x" % b, b"q" + ch + b"q",
+                    ("IDENT", b"q" + ch + b"q") if (_letter(b) or _decimal(b) or b in (45, 46, 58, 42)) else ("IDENT", b"q")))
+        out.append(("class:decimal:%02x" % b, b"7" + ch, ("INT", b"7" + ch) if _decimal(b) else None))
+        out.append(("class:hex:%02x" % b, b"0x" + ch + b" ", ("INT", b"0x" + ch) if _hex(b) else None))
+        out.append(("class:delimiter:%02x" % b, b"{" + ch + b'"x"' + ch + b"} ",
+                    ("OPEN_LONG_STRING", ch) if (_letter(b) or _decimal(b)) else
+                    ("OPEN_LONG_STRING", b"") if b == 0x22 else ("LEFT_BRACE", b"{")))
+        # white space: the first token starts in column 2 exactly when the byte is blank, tab or CR
+        out.append(("class:space:%02x" % b, ch + b"q", ("@col", 2 if b in (32, 9, 13) else 1)))
+    return out
+
+
 def first_fail(rep):
     return rep is None or rep.startswith(("hang", "died", "crash", "skipped"))
 
@@ -62,7 +107,8 @@ def run(ctx):
         "Coq 8.16.1 kernel (coqc; vm_compute for the table obligation and the Examples; no native_compute)",
         "axioms: none (Print Assumptions of every theorem of Props/C01.v: Closed under the global context)",
         "extraction: ExtrOcamlBasic only; OCaml 4.13.1; ocaml/common.ml + ocaml/lex_main.ml (printing of tokens / metas)",
-        "translator harness/cmd/trans/lex_tokens.go (token constants and keywords map -> Gen/Tokens.v)",
+        "translators harness/cmd/trans/lex_tokens.go (token constants, keywords map -> Gen/Tokens.v), lex_classes.go (character classes and "
+        "loop conditions -> Gen/LexClasses.v), lex_ops.go (the NextToken switch -> Gen/LexOps.v)",
         "harness/cmd/implrun/lex.go (drives lexer.NextToken, parser.New/NextToken/PeekToken, the three Parse entry points; "
         "computes the raw-byte position table of the oracle with Go's own []rune(string) decoding)",
         "modelled not verified: Model/Lex.v and Model/Pump.v are hand transcriptions of lexer/lexer.go, lexer/reader.go and "
@@ -89,11 +135,18 @@ def run(ctx):
     inputs += LI.long_runs(thorough)                # tokens and runs beyond the window, thousands of line feeds
     files = vclgen.repo_vcl_files(V.REPO)
     inputs += [("file:" + p, d) for p, d in files]
+    inputs += LI.line_endings(files)                # every repository file with CRLF / CR / mixed line ends
+    inputs += LI.nesting(thorough)                  # nesting depth 1 .. 1500 of every recursive construct, closed / open / over-closed
+    inputs += LI.error_positions(rng, files, thorough)   # one error injected at positions spread over the longest files, LF and CRLF
     docs = LI.docs_blocks(V.REPO)
     inputs += docs if thorough else docs[:60]
     for kwd, ty in reference_keywords():
         inputs.append(("keyword", kwd.encode()))
         inputs.append(("keyword-stmt", ("sub f { " + kwd + " x; }").encode()))
+    for lit, ty in reference_operators():           # every documented operator spelling, alone and between operands
+        inputs.append(("operator-probe", lit.encode()))
+        inputs.append(("operator-probe-ctx", ("a" + lit + "b " + lit).encode()))
+    inputs += [(lab, src) for lab, src, _ in class_probes()]   # every ASCII byte against every documented character class
     if thorough:
         inputs += LI.prefixes(rng, files, small_limit=1 << 30, per_large=None)
     else:
@@ -240,6 +293,37 @@ def run_inputs(ctx, proved, model, implrun, inputs, g, replaying=False):
         elif not first_fail(r):
             ctx.violation("keyword %r is not lexed as %s" % (kwd, ty), replay("keyword", kwd.encode(), impl=r, expected=ty))
 
+    # ---- documented operator spellings and character classes (focus of the table / class obligations)
+    ops_ok = classes_ok = 0
+    if not replaying:
+        first = {}
+        for k, (lab, d) in enumerate(inputs):
+            first.setdefault((lab, d), k)
+        for lit, ty in reference_operators():
+            r = i_lex[first[("operator-probe", lit.encode())]] or ""
+            if '(%s "%s" 1 1 0)' % (ty, lit.encode().hex()) in r:
+                ops_ok += 1
+            elif not first_fail(r):
+                ctx.violation("operator %r is not lexed as %s" % (lit, ty), replay("operator-probe", lit.encode(), impl=r, expected=ty))
+        for lab, src, exp in class_probes():
+            if exp is None:
+                continue
+            r = i_lex[first[(lab, src)]] or ""
+            if first_fail(r):
+                continue
+            toks = r.partition(" | ")[2]
+            if exp[0] == "@col":
+                m0 = re.match(r'\(\S+ "[0-9a-f]*" (\d+) (\d+) ', toks)
+                want = "first token at 1:%d" % exp[1]
+                good = bool(m0) and (m0.group(1), m0.group(2)) == ("1", str(exp[1]))
+            else:
+                want = '(%s "%s" ' % (exp[0], exp[1].hex())
+                good = toks.startswith(want)
+            if good:
+                classes_ok += 1
+            else:
+                ctx.violation("character class probe %s: expected %s" % (lab, want),
+                              replay(lab, src, impl=r, expected=want))
     if not proved and not ctx.violations:
         ctx.violation("proof obligation of C01 no longer checks: " + (ctx.broken or "Props/C01.v"),
                       {"no_failing_input": True, "broken": ctx.broken,
@@ -254,7 +338,7 @@ def run_inputs(ctx, proved, model, implrun, inputs, g, replaying=False):
         "lex_agree": agree_lex, "pump_agree": agree_pump, "parse_agree": agree_parse, "tokens_checked_by_oracle": n_tokens,
         "token_types_seen": dict(sorted(tok_types.items(), key=lambda kv: -kv[1])),
         "parse_outcomes": outcomes, "parse_error_token_types": dict(sorted(err_types.items(), key=lambda kv: -kv[1])),
-        "keywords_checked": kw_ok, "bytes_total": sum(len(d) for _, d in inputs),
+        "keywords_checked": kw_ok, "operators_checked": ops_ok, "class_probes_checked": classes_ok, "bytes_total": sum(len(d) for _, d in inputs),
         "generator_stats": dict(sorted(g.stats.items())) if g else {},
     })
     return ctx.finish(
